@@ -15,6 +15,7 @@ def lines_of(out):
 RECORDERS = [
     ("window", lambda s, q: ["window-record", s, 10 if q else 40, 80 if q else 200]),
     ("tok-sel", lambda s, q: ["tok-record", "sel", s, 21 if q else 70, 150 if q else 400]),
+    ("tok-selx", lambda s, q: ["tok-record", "selx", s, 14 if q else 42, 60 if q else 200]),   # magnitudes near the top of the range
     ("tok-rev", lambda s, q: ["tok-record", "rev", s, 9, 400 if q else 1500]),
     ("num-fin", lambda s, q: ["num-record", "fin", s, 19, 60 if q else 300, 0]),
     ("num-rec", lambda s, q: ["num-record", "rec", s, 13, 60 if q else 300, 0]),
